@@ -1,2 +1,160 @@
--- stub: replaced by the C12 driver
-def main : IO Unit := pure ()
+/-
+  Driver.C12 — runs the C12 Spec (`HMap.PS.step`, a finite map) and the CodeModel (`HMap.PMap.step`,
+  bucket table) side by side; one request line → one answer line.
+
+    N <TypeName> <hash> <cap> <thr> [R]  new session, configured from `HMap.plainTypes`     → ok
+    P k v   A k v   AE k v   G k   CK k   CV v   R k   C   SZ IE IF   SM n   PA k=v,k=v,…|[]   SO asc|desc
+    KS VS ES      enumerations, *sorted by key* (the order of a plain hash map is not observable)
+    TB            hex of ToBytes (integer sessions)        TO <hex>   ToObject(hex) into the current map
+
+  Answer: the Spec's output; `MISMATCH …` if the CodeModel disagrees (cannot happen: C12.plain_refine).
+-/
+import Golib.HMap.Plain
+import Golib.HMap.Wire
+import Golib.HMap.Types
+import Driver.Common
+
+open HMap Drv
+
+structure Sess (K : Type) [DecidableEq K] where
+  d : PDesc K Int
+  hash : K → Nat
+  thr : Nat → Nat
+  spec : PS K Int
+  conc : PMap K Int
+
+inductive St
+  | none
+  | ints (s : Sess Int)
+  | strs (s : Sess String)
+
+def showList (f : α → String) (xs : List α) : String :=
+  if xs.isEmpty then "[]" else ",".intercalate (xs.map f)
+
+def sortEnts [LT K] [DecidableRel (α := K) (· < ·)] (es : List (K × Int)) : List (K × Int) :=
+  es.mergeSort (fun a b => !decide (b.1 < a.1))
+
+/-- canonical form of an output: enumerations sorted by key (values: by the key they belong to) -/
+def showOut [LT K] [DecidableRel (α := K) (· < ·)] (sk : K → String) (ents : List (K × Int)) : Out K Int → String
+  | .unit => "u"
+  | .none => "-"
+  | .val v => toString v
+  | .key k => sk k
+  | .bool b => if b then "T" else "F"
+  | .nat n => toString n
+  | .keys _ => showList sk ((sortEnts ents).map (·.1))
+  | .vals _ => showList toString ((sortEnts ents).map (·.2))
+  | .ents _ => showList (fun e => sk e.1 ++ "=" ++ toString e.2) (sortEnts ents)
+
+def showStrKey (s : String) : String := if s.isEmpty then "~" else s
+def parseStrKey (s : String) : Option String := if s == "~" then some "" else some s
+
+def parsePair (pk : String → Option K) (s : String) : Option (K × Int) :=
+  match s.splitOn "=" with
+  | [k, v] => do some ((← pk k), (← parseInt v))
+  | _ => none
+
+def parseOp [LT K] [DecidableRel (α := K) (· < ·)] (pk : String → Option K) (ws : List String) : Option (POp K Int) :=
+  match ws with
+  | ["P", k, v] => do some (.put (← pk k) (← parseInt v))
+  | ["A", k, v] => do some (.add (← pk k) (← parseInt v))
+  | ["AE", k, v] => do some (.addIfExist (← pk k) (← parseInt v))
+  | ["G", k] => do some (.get (← pk k))
+  | ["CK", k] => do some (.containsKey (← pk k))
+  | ["CV", v] => do some (.containsValue (← parseInt v))
+  | ["R", k] => do some (.remove (← pk k))
+  | ["C"] => some .clear
+  | ["SZ"] => some .size
+  | ["IE"] => some .isEmpty
+  | ["IF"] => some .isFull
+  | ["SM", n] => do some (.setMax (← parseNat n))
+  | ["PA", l] => do some (.putAll (← if l == "[]" then some [] else (l.splitOn ",").mapM (parsePair pk)))
+  | ["SO", "asc"] => some (.sort (fun a b => decide (a < b)))
+  | ["SO", "desc"] => some (.sort (fun a b => decide (b < a)))
+  | ["KS"] => some .keys
+  | ["VS"] => some .values
+  | ["ES"] => some .entries
+  | _ => none
+
+def isEnum : POp K V → Bool
+  | .keys | .values | .entries => true
+  | _ => false
+
+def stepSess [DecidableEq K] [LT K] [DecidableRel (α := K) (· < ·)]
+    (pk : String → Option K) (sk : K → String) (s : Sess K) (ws : List String) : Sess K × String :=
+  match parseOp pk ws with
+  | none => (s, "bad-op")
+  | some op =>
+    let (sp, o1) := PS.step s.d s.spec op
+    let (cm, o2) := PMap.step s.hash s.thr s.d s.conc op
+    let t1 := showOut sk sp.ents o1
+    let t2 := showOut sk cm.tab.entries o2
+    let ok := t1 == t2 && (!isEnum op || (decide (cm.count = sp.ents.length) && decide (cm.max = sp.max)))
+    ({ s with spec := sp, conc := cm }, if ok then t1 else "MISMATCH spec=" ++ t1 ++ " model=" ++ t2)
+
+def parseThr (s : String) : Option (List (Nat × Nat)) :=
+  parseList (fun p => match p.splitOn ":" with
+    | [a, b] => do some ((← parseNat a), (← parseNat b))
+    | _ => none) s
+
+def thrOf (tbl : List (Nat × Nat)) (cap : Nat) : Nat :=
+  match tbl.lookup cap with
+  | some t => t
+  | none => cap
+
+def intHash : String → Option (Int → Nat)
+  | "id" => some (fun k => (k % 18446744073709551616).toNat)
+  | "mod3" => some (fun k => (k % 3).toNat)
+  | "const" => some (fun _ => 7)
+  | "poly" => some (fun k => ((k * 31 + 17) % 4294967296).toNat)
+  | _ => none
+
+def polyStr (s : String) : Nat := s.toList.foldl (fun h c => (31 * h + c.toNat) % 18446744073709551616) 0
+
+def strHash : String → Option (String → Nat)
+  | "id" | "poly" => some polyStr
+  | "mod3" => some (fun s => polyStr s % 3)
+  | "const" => some (fun _ => 7)
+  | _ => none
+
+def newSess [DecidableEq K] (t : TypeDesc) (isEmpty : K → Bool)
+    (hash : K → Nat) (cap : Nat) (tbl : List (Nat × Nat)) : Sess K :=
+  let d : PDesc K Int := { t.descOf isEmpty with addFreshNew := t.addFreshNew }
+  { d := d, hash := hash, thr := thrOf tbl, spec := {}, conc := PMap.new (thrOf tbl) cap }
+
+def answer (st : St) (line : String) : St × String :=
+  let ws := (line.splitOn " ").filter (fun w => !w.isEmpty)
+  match ws with
+  | "N" :: tn :: hk :: cap :: thr :: rest =>
+    -- a trailing `R` selects the repaired descriptor (the harness sends it once a known finding no longer reproduces)
+    match (findType plainTypes tn).map (fun t => if rest == ["R"] then t.repaired else t), parseNat cap, parseThr thr with
+    | some t, some cap, some tbl =>
+      if t.key != .str then
+        match intHash hk with
+        | some h => (.ints (newSess t (fun _ => false) h cap tbl), "ok")
+        | none => (st, "bad-new")
+      else
+        match strHash hk with
+        | some h => (.strs (newSess t (fun (s : String) => s.isEmpty) h cap tbl), "ok")
+        | none => (st, "bad-new")
+    | _, _, _ => (st, "bad-new")
+  | ["TB"] =>
+    match st with
+    | .ints s => (st, hexOf (PMap.toBytes s.conc))
+    | _ => (st, "bad-op")
+  | ["TO", hex] =>
+    match st, ofHex hex with
+    | .ints s, some bs =>
+      let cm := PMap.toObject s.hash s.thr s.d s.conc bs
+      let sp := match P.run pairsFromBytes bs with
+        | some (l, _) => l.foldl (fun acc e => (PS.put s.d acc e.1 e.2).1) s.spec
+        | none => s.spec
+      (.ints { s with spec := sp, conc := cm }, "u")
+    | _, _ => (st, "bad-op")
+  | _ =>
+    match st with
+    | .none => (st, "no-session")
+    | .ints s => let (s', o) := stepSess parseInt toString s ws; (.ints s', o)
+    | .strs s => let (s', o) := stepSess parseStrKey showStrKey s ws; (.strs s', o)
+
+def main : IO Unit := mainLoop St.none answer
